@@ -330,7 +330,7 @@ func TestC19(t *testing.T) {
 			if ln > 0 && rng.Intn(6) == 0 {
 				b[rng.Intn(ln)] = "gGxX -_"[rng.Intn(7)]
 			}
-			for _, pre := range []string{"", "0x", "0X", "0x0x"} {
+			for _, pre := range []string{"", "0x", "0X", "0x0x", "1X", "fX", "xX", "1x", "00", "0y", "X0", " X", "\"X", "0", "x"} {
 				text := append([]byte(pre), b...)
 				for _, k := range []int{0, 1, 4, 20, 31, 32, 33, ln / 2, (ln + 1) / 2} {
 					kk := k
@@ -366,7 +366,7 @@ func TestC19(t *testing.T) {
 			if ln > 0 && rng.Intn(6) == 0 {
 				b[rng.Intn(ln)] = "gGxX -_"[rng.Intn(7)]
 			}
-			for _, pre := range []string{"", "0x", "0X"} {
+			for _, pre := range []string{"", "0x", "0X", "1X", "fX", "1x", "00", " X"} {
 				text := append([]byte(pre), b...)
 				for _, preset := range []int{-1, 0, 3, 64} {
 					ps := preset
